@@ -291,6 +291,9 @@ func (d *DirectPowerSemiGroupElement[E, W, WT]) UnmarshalCBOR(data []byte) error
 	if err != nil {
 		return errs.Wrap(err).WithMessage("failed to unmarshal direct power semi-group element from CBOR")
 	}
+	if len(dto.Components) == 0 {
+		return ErrInvalidArgument.WithMessage("arity must be greater than 0")
+	}
 	if err := d.set(len(dto.Components), dto.Components...); err != nil {
 		return errs.Wrap(err).WithMessage("failed to set direct power semi-group element from unmarshaled DTO")
 	}
